@@ -168,6 +168,22 @@ impl Grapheme {
         }
     }
 
+    fn is_single_escape_sequence(s: &str) -> bool {
+        // A backslash followed by exactly one character (such as \d, \. or \n)
+        // or one escaped code point (\u{...}) can be quantified without a group.
+        let mut chars = s.chars();
+        if chars.next() != Some('\\') {
+            return false;
+        }
+        match (chars.next(), chars.next()) {
+            (Some(_), None) => true,
+            (Some('u'), Some('{')) => {
+                s.ends_with('}') && s[3..s.len() - 1].chars().all(|c| c.is_ascii_hexdigit())
+            }
+            _ => false,
+        }
+    }
+
     fn convert_to_surrogate_pair(&self, c: char) -> String {
         c.encode_utf16(&mut [0; 2])
             .iter()
@@ -179,7 +195,7 @@ impl Grapheme {
 impl Display for Grapheme {
     fn fmt(&self, f: &mut Formatter<'_>) -> Result {
         let is_single_char = self.char_count(false) == 1
-            || (self.chars.len() == 1 && self.chars[0].matches('\\').count() == 1);
+            || (self.chars.len() == 1 && Self::is_single_escape_sequence(&self.chars[0]));
         let is_range = self.min < self.max;
         let is_repetition = self.min > 1;
         let mut value = if self.repetitions.is_empty() {
